@@ -39,6 +39,12 @@ def enum_cases(tier):
     for n in range(1, 137):
         seed += 1
         yield {"axis": "attitude", "n_att": n, "att_len": 16384, "vseed": seed}
+    # an attitude record that declares no points at all (round 14, C05n)
+    # open_alos2 itself rejects such a leader (AttributeError in the attitude transform), so this
+    # axis works one level down, on sar_leader.io.parse_data, the call open_sar_leader makes
+    for n in (1, 2, 5):
+        for k in range(3):
+            yield {"axis": "attitude-zero", "n_att": n, "att_len": 16384, "vseed": 100000 + 10 * n + k}
     for n in list(range(1, 137, 1 if tier == "thorough" else 9)):
         seed += 1
         yield {"axis": "attitude-minimal", "n_att": n, "att_len": 16 + 120 * n, "vseed": seed}
@@ -147,9 +153,36 @@ def check_trailer(case):
     return out
 
 
+def check_attitude_zero(case):
+    """metamorphic: re-declaring the attitude record of a leader as holding 0 points (its length
+    unchanged, the former points become filler) leaves every other record's decoding unchanged"""
+    from ceos_alos2.sar_leader.io import parse_data
+
+    params = product.default_leader_params()
+    params.update(n_att=case["n_att"], att_len=case["att_len"])
+    data, leaves = product.build_leader(params, random.Random(case["vseed"]))
+    (leaf,) = [l for l in leaves if l.path == "attitude/number_of_points"]
+    zero = data[: leaf.offset] + b"   0" + data[leaf.offset + 4 :]
+    ref, err = harness.guard(parse_data, data)
+    if err is not None:
+        return [harness.disc("exception", "parse_data", "parsed records", harness.exc_text(err))]
+    got, err = harness.guard(parse_data, zero)
+    if err is not None:
+        return [harness.disc("exception", "parse_data (0 attitude points)", "parsed records", harness.exc_text(err))]
+    out = []
+    if len(got["attitude"]["data_points"]) != 0:
+        out.append(harness.disc("attitude-points", "attitude/data_points", 0, len(got["attitude"]["data_points"])))
+    for name in ref:
+        if name != "attitude" and repr(got.get(name)) != repr(ref[name]):
+            out.append(harness.disc("misframed-after-empty-attitude", name, "same decoding as with N points", "different"))
+    return out
+
+
 def run_case(case):
     if case["axis"] == "trailer":
         return check_trailer(case)
+    if case["axis"] == "attitude-zero":
+        return check_attitude_zero(case)
     leader = {}
     for k in ("n_att", "att_len", "n_channels", "facility_lengths", "map_projection", "designator"):
         if k in case:
@@ -180,7 +213,7 @@ def run_case(case):
 
 
 LEVEL_TEXT = (
-    "Exhaustive enumeration of every declared count / length axis (attitude points 1..136, "
+    "Exhaustive enumeration of every declared count / length axis (attitude points 1..136, and 0 at the parse_data level, "
     "channels 1..16, facility lengths, map-projection 0/1, file pointers 0..12, low-res images "
     "0..7) with the complete reference model as oracle for every record that follows."
 )
